@@ -315,6 +315,8 @@ func C17(c *Ctx) {
 
 	c.noDropRules("C17-3")
 	c.anchoredRegexpRule("C17-6", "parser.reConvergen", "parser.reNotation")
+	c.patternWitnessRule("C17-7")
+	c.lineSubjectRule("C17-8")
 
 	r.Rule("C17-5", "util.GetDocCommentOn returns only `Doc` comment groups of the enclosing declaration nodes (never a trailing line comment), each under a non-nil test of that same Doc link")
 	if fn := c.MustFunc("C17-5", "/pkg/util", "GetDocCommentOn"); fn != nil {
